@@ -7,7 +7,12 @@
    what comes back), external dependency descriptors (a package that is not local has "no files"), the
    link step (protocompile) and its own errors. resolveDependencies ranges over a Go map: when several
    dependencies fail, which failure is returned first is not fixed by the code; the model takes them in
-   import order. *)
+   import order.
+
+   Since fix 3f76693 a failure to load a dependency is reported AT THE IMPORT STATEMENT of the importing
+   file (dependencySource.locate in packages.go: FileSummary.DependencyPositions of the first file, in
+   listing order, that names the package), unless the error already carries a position (an error from
+   further down the import chain, or from the dependency's own source text, is kept as it is). *)
 From Coq Require Import String List NArith ZArith Bool Arith.
 From J5V.lib Require Import Text Outcome.
 From J5V.model Require Import BclLexer BclParser CmpbFields CmpbDecls CmpbFront.
@@ -17,8 +22,12 @@ Local Open Scope bool_scope.
 Definition pkgid := N.
 Definition fileid := N.
 
-(* a local source file: its text and the packages its import lines / references name (FileSummary) *)
-Record sfile := mkSF { sf_id : fileid; sf_input : list N; sf_imports : list pkgid }.
+(* a local source file: its text and the packages its references name, in reference order
+   (FileSummary.TypeDependencies), each with the span of the import statement that brings the package in
+   (FileSummary.DependencyPositions: sourcedef SourceFile.source_locations, child "imports", child <index>;
+   since a7259e7 the recorded span of the first reference itself when no import statement names the package) *)
+Record sfile := mkSF { sf_id : fileid; sf_input : list N; sf_imports : list (pkgid * span) }.
+Definition sf_deps (f : sfile) : list pkgid := map fst (sf_imports f).
 (* the local packages of the bundle with their files in listing order *)
 Definition bundle := list (pkgid * list sfile).
 
@@ -46,6 +55,27 @@ Fixpoint dedupe_pkgs (l : list pkgid) : list pkgid :=
   match l with
   | [] => []
   | x :: r => if mem_pkg x r then dedupe_pkgs r else x :: dedupe_pkgs r
+  end.
+
+(* packageDependencies.add: the first file (listing order) that names the package, the first import of it there *)
+Fixpoint import_span (d : pkgid) (l : list (pkgid * span)) : option span :=
+  match l with
+  | [] => None
+  | (x, sp) :: r => if N.eqb d x then Some sp else import_span d r
+  end.
+Fixpoint dep_source (d : pkgid) (files : list sfile) : option (fileid * span) :=
+  match files with
+  | [] => None
+  | f :: r => match import_span d (sf_imports f) with
+              | Some sp => Some (sf_id f, sp)
+              | None => dep_source d r
+              end
+  end.
+(* dependencySource.locate: an error that has a position keeps it *)
+Definition locate (src : option (fileid * span)) (e : perr) : perr :=
+  match pe_pos e, src with
+  | None, Some (fid, sp) => mkPE (pe_stage e) (Some fid) (Some sp)
+  | _, _ => e
   end.
 
 Section Load.
@@ -79,12 +109,13 @@ Section Load.
                  match first_early files with
                  | Some es => Ok es
                  | None =>
-                     let deps := filter (fun d => negb (N.eqb d name)) (dedupe_pkgs (flat_map sf_imports files)) in
+                     let deps := filter (fun d => negb (N.eqb d name)) (dedupe_pkgs (flat_map sf_deps files)) in
                      match (fix load_deps (ds : list pkgid) : outcome (list perr) :=
                               match ds with
                               | [] => Ok []
                               | d :: r => match load f b (name :: chain) d with
                                           | Ok [] => load_deps r
+                                          | Ok es => Ok (map (locate (dep_source d files)) es)
                                           | o => o
                                           end
                               end) deps with
@@ -101,23 +132,31 @@ End Load.
 
 (* resolveDependencies ranges over a Go MAP: when several imports fail, which failure comes back is not
    fixed.  [load_kinds]: every outcome some iteration order can produce, for a bundle of well-formed files
-   (0 = loaded, 1 = import cycle, 2 = no files for package); [load] above is the import-order instance *)
-Fixpoint load_kinds (fuel : nat) (b : bundle) (chain : list pkgid) (name : pkgid) : list N :=
+   (kind 0 = loaded, 1 = import cycle, 2 = no files for package) with the file and span the error is
+   positioned at; [load] above is the import-order instance *)
+Definition lkind : Type := (N * option (fileid * span))%type.
+Definition locate_kind (src : option (fileid * span)) (k : lkind) : lkind :=
+  match snd k with
+  | None => (fst k, src)
+  | Some _ => k
+  end.
+Fixpoint load_kinds (fuel : nat) (b : bundle) (chain : list pkgid) (name : pkgid) : list lkind :=
   match fuel with
   | O => []
   | S f =>
-      if mem_pkg name chain then [1%N]
+      if mem_pkg name chain then [(1%N, None)]
       else match find_pkg name b with
-           | None => [2%N]
+           | None => [(2%N, None)]
            | Some files =>
-               let deps := filter (fun d => negb (N.eqb d name)) (dedupe_pkgs (flat_map sf_imports files)) in
-               match flat_map (fun d => filter (fun k => negb (N.eqb k 0)) (load_kinds f b (name :: chain) d)) deps with
-               | [] => [0%N]
+               let deps := filter (fun d => negb (N.eqb d name)) (dedupe_pkgs (flat_map sf_deps files)) in
+               match flat_map (fun d => map (locate_kind (dep_source d files))
+                                            (filter (fun k => negb (N.eqb (fst k) 0)) (load_kinds f b (name :: chain) d))) deps with
+               | [] => [(0%N, None)]
                | ks => ks
                end
            end
   end.
-Definition package_kinds (b : bundle) (name : pkgid) : list N := load_kinds (S (length b)) b [] name.
+Definition package_kinds (b : bundle) (name : pkgid) : list lkind := load_kinds (S (length b)) b [] name.
 
 (* the per-file result from the front end of model/CmpbFront.v *)
 Definition front_fres (walk : list stmt -> outcome walk_out) (f : sfile) : fileres :=
